@@ -36,6 +36,8 @@ struct ReqFam {
     return SK<K>::deserialize(bytes.data(), bytes.size(), serde<T>(), cmp);
   }
 
+  static const bool self_merge_ok = false;     // req_sketch::merge has no self-merge handling
+  static bool convert_gap(uint32_t k, uint64_t n) { return n >= 6ULL * k; }
   static uint64_t exact_cap(uint32_t k) { const uint32_t ke = std::max<uint32_t>(k & ~1u, 4); return 6ULL * ke - 1; }
 
   // the sketch states its capacity in to_string(): "Capacity items : <sum of nominal compactor capacities>"
